@@ -49,7 +49,9 @@ func init() {
 		}
 		h := sha256.Sum256(constBytes(bs))
 		name := hex.EncodeToString(h[:])
-		files(it)[name] = a[1]
+		if _, dup := files(it)[name]; !dup { // AddFile writes only when the file does not exist; the content is copied
+			files(it)[name] = it.fileReadCopy(a[1])
+		}
 		return StrV{S: name}
 	})
 	Register("("+filecachePkg+".Cache).GetFile", func(it *Interp, fn *ssa.Function, a []Value) Value {
@@ -58,7 +60,7 @@ func init() {
 		if !ok {
 			return TupleV{SliceV{}, it.opaqueError("file not found")}
 		}
-		return TupleV{v, IfaceV{}}
+		return TupleV{it.fileReadCopy(v), IfaceV{}}
 	})
 	Register("("+filecachePkg+".Cache).MustGetFile", func(it *Interp, fn *ssa.Function, a []Value) Value {
 		name := concStr(it, a[1], "filecache.MustGetFile")
@@ -66,6 +68,6 @@ func init() {
 		if !ok {
 			it.goPanicStr("explicit", "filecache: file not found "+name)
 		}
-		return v
+		return it.fileReadCopy(v)
 	})
 }
